@@ -132,6 +132,19 @@ def throw_hits_noexcept(e):
     return any(throw_hits_noexcept(x) for x in subexprs(e))
 
 
+def lvss_reactive(e, root=True):
+    """Finding (runtime, use after destroy): a let_value_with_stop_source operation forwards its child's completion
+    at once; if the child completes synchronously from a stop callback that runs inside stopSource_.request_stop()
+    (a stop-reactive leaf) and the parent destroys the finished operation right away (finally, let_error, let_done,
+    let_value, sequence, ...), the source is destroyed while its request_stop() is still running
+    (out/calc2/repro_lvss_stop_source_destroyed_in_request_stop.cpp).  Depending on what overwrites the storage the
+    real code then spins forever in inplace_stop_source::lock or crashes.  True if e has a stop-reactive leaf inside a
+    let_value_with_stop_source that is not the root operation (the generator then draws another expression)."""
+    if e[0] == "lvss" and not root and "leafn" in kinds_of(e):
+        return True
+    return any(lvss_reactive(x, False) for x in subexprs(e))
+
+
 def subexprs(e):
     return [x for x in e[1:] if isinstance(x, tuple) and x and isinstance(x[0], str) and x[0] not in FNS]
 
@@ -512,7 +525,7 @@ def run_k2v2(chk, n_tus, cases_per_tu, scripts_per_case, size_range=(2, 8), cfg=
             while True:
                 g = gen(rng) if gen else Gen2(rng, wsa=cfg.endswith("20"))
                 e = g.expr(rng.randint(*size_range))
-                if not lvalue_lete(e):   # throw_hits_noexcept shapes are allowed since the let_value successor fix in /repo
+                if not lvss_reactive(e) and not lvalue_lete(e):   # throw_hits_noexcept shapes are allowed since the let_value successor fix in /repo
                     break
             cases.append(e)
         tus.append(cases)
@@ -556,7 +569,7 @@ def run_k2v2(chk, n_tus, cases_per_tu, scripts_per_case, size_range=(2, 8), cfg=
                 ilines.append("%d %d | %s" % (i, pre, sc))
                 mlines.append("calc2 %d %s | %s" % (pre, to_model(e), sc))
                 meta.append((e, pre, sc))
-        iout = vlib.run_impl_lines(exe, ilines, chunk=400)
+        iout = vlib.run_impl_lines(exe, ilines, chunk=400, timeout=60)   # a spinning case must not stall the check
         mout = model_run(mlines)
         for (e, pre, sc), io, mo, il in zip(meta, iout, mout, ilines):
             stats["scripts"] += 1
